@@ -10,7 +10,7 @@ from .. import labelled as LB
 ID = "C03"
 LEVEL = "proof"
 PROP_FILE = "Properties/C03.v"
-PROOF_FILES = ["Proofs/UspfsFinal.v", "Proofs/UspfsProofs.v", "Proofs/ThlProofs.v", "Model/Uspfs.v", "Model/Thl.v", "Model/Recon.v", "Model/Entry.v", "Proofs/EntryProofs.v", "Proofs/LabelCostProofs.v"]
+PROOF_FILES = ["Proofs/AllAnyProofs.v", "Proofs/UspfsFinal.v", "Proofs/UspfsProofs.v", "Proofs/ThlProofs.v", "Model/Uspfs.v", "Model/Thl.v", "Model/Recon.v", "Model/Entry.v", "Proofs/EntryProofs.v", "Proofs/LabelCostProofs.v"]
 TRUSTED = ["model Model/Uspfs.v of _compute_gain_sets/_compute_lca_sets/_compute_uspfs_entry/_compute_uspfs_table/_decode_uspfs_table/_uspfs (after fix D6), on the Entry (C16) and evaluator (C06) models"]
 ASSUMES = ["binary trees", "cost vectors with spe + 2*sloss <= dup + 2*floss for the optimality clauses (F-COHERENCE)"]
 RULE = ("inputs = (species shape, object shape, leaf species, unordered leaf syntenies over <=4 families, coherent cost vector incl. sloss=0); "
